@@ -117,6 +117,48 @@ def _targets(body_nodes, extra_targets=()):
     return names, attrs, mutated
 
 
+def _add_writes_of_self_calls(I, body_nodes, f, attrs, mutated):
+    """a loop body that calls self.m(...) also changes whatever m (and the methods m calls on self) stores through self: those
+    attributes are havocked like the ones the body assigns itself.  (Without this, extracting a helper method from a loop body would keep
+    the loop's state at its entry value - an unsound proof and, in practice, a false alarm.)"""
+    slf = f.locals.get("self", UNBOUND)
+    cls = getattr(slf, "cls", None)
+    if cls is None:
+        return
+    seen, todo = set(), []
+    for st in body_nodes:
+        for n in ast.walk(st):
+            if isinstance(n, ast.Call) and isinstance(n.func, ast.Attribute) and isinstance(n.func.value, ast.Name) and n.func.value.id == "self":
+                todo.append(n.func.attr)
+    while todo:
+        m = todo.pop()
+        if m in seen:
+            continue
+        seen.add(m)
+        try:
+            fv = I.class_lookup(cls, m)
+        except Exception:
+            continue
+        node = getattr(fv, "node", None)
+        if not isinstance(node, ast.FunctionDef) or not node.args.args:
+            continue
+        me = node.args.args[0].arg
+        if any(isinstance(d, ast.Name) and d.id in ("staticmethod", "classmethod") for d in node.decorator_list):
+            continue
+        if getattr(fv, "qualname", None) in I.summaries and getattr(fv, "qualname", None) not in I.inline:
+            continue            # called through its contract: the harness that gives the contract havocs what it changes
+        n2, a2, m2 = _targets(node.body)
+        for base, attr in a2:
+            if base == me:
+                attrs.add(("self", attr))
+        for base, attr in m2:
+            if base == me and attr is not None:
+                mutated.add(("self", attr))
+        for n in ast.walk(node):
+            if isinstance(n, ast.Call) and isinstance(n.func, ast.Attribute) and isinstance(n.func.value, ast.Name) and n.func.value.id == me:
+                todo.append(n.func.attr)
+
+
 def _havoc_value(cur, name, spec):
     E = core.CUR
     h = spec.havoc.get(name)
@@ -211,6 +253,8 @@ def run_loop(I, s, f, sp, kind, iterable):
         extra["trips"] = trips
 
     names, attrs, mutated = _targets(s.body, [s.target] if kind == "for" else [])
+    if sp.callee_frame != "harness":
+        _add_writes_of_self_calls(I, s.body, f, attrs, mutated)
 
     def bind_head():
         if kind == "for":
